@@ -27,8 +27,13 @@ inductive Stmt where
                              -- blocks until `h` has been created
   | ctxOf (h : Nat)          -- `with action_h.context():` on an action created by any unit; blocks until created
   | log (o : Nat)            -- log_message(...)
+  | remote (o : Nat)         -- first statement of a thread whose function went through `preserve_context`: the call of
+                             -- the wrapper, `with Action.continue_task(task_id)`: a child action `o` of the action that
+                             -- was current where the wrapper was made (logs its start message); nothing if there was
+                             -- none.  Closed by `exit`; what `exit` restores is the thread's own (empty) context.
   | spawnThread (v : Nat)    -- threading.Thread(target=unit v).start()
-  | spawnTask (v : Nat)      -- asyncio.ensure_future(unit v)
+  | spawnTask (v : Nat)      -- asyncio.ensure_future(unit v); also: Thread(target=preserve_context(unit v)).start() — the
+                             -- action current HERE is what unit v's `remote` statement continues
   | join (v : Nat)           -- thread.join() / await task
 deriving DecidableEq, Repr, Inhabited
 
@@ -90,6 +95,10 @@ def step (p : Prog) (s : State) (u : Nat) : Option State :=
     | (o, old, true) :: ts => some ((s.emit ⟨u, o, .end_, some o⟩).setUnit u { x with code := r, ctx := old, toks := ts })
     | (_, old, false) :: ts => some (s.setUnit u { x with code := r, ctx := old, toks := ts })
   | .create o :: r => some ((s.emit ⟨u, o, .start, x.ctx⟩).setUnit u { x with code := r })
+  | .remote o :: r =>
+    match x.ctx with
+    | some a => some ((s.emit ⟨u, o, .start, some a⟩).setUnit u { x with code := r, ctx := some o, toks := (o, none, true) :: x.toks })
+    | none => some (s.setUnit u { x with code := r, toks := (o, none, false) :: x.toks })
   | .withOf h :: r =>
     if created s.log h then some (s.setUnit u { x with code := r, ctx := some h, toks := (h, x.ctx, true) :: x.toks }) else none
   | .ctxOf h :: r =>
@@ -136,6 +145,10 @@ def denCode (p : Prog) (u : Nat) (ctx : Option Nat) (toks : List (Nat × Option 
     | (o, old, true) :: ts => ⟨u, o, .end_, some o⟩ :: denCode p u old ts r
     | (_, old, false) :: ts => denCode p u old ts r
   | .create o :: r => ⟨u, o, .start, ctx⟩ :: denCode p u ctx toks r
+  | .remote o :: r =>
+    match ctx with
+    | some a => ⟨u, o, .start, some a⟩ :: denCode p u (some o) ((o, none, true) :: toks) r
+    | none => denCode p u none ((o, none, false) :: toks) r
   | .withOf h :: r => denCode p u (some h) ((h, ctx, true) :: toks) r
   | .ctxOf h :: r => denCode p u (some h) ((h, ctx, false) :: toks) r
   | .log o :: r => ⟨u, o, .msg, ctx⟩ :: denCode p u ctx toks r
@@ -165,6 +178,7 @@ def joinedB : List (Nat × Nat) → Nat → List Stmt → Bool
   | pend, d, .enter _ :: r => joinedB pend (d + 1) r
   | pend, d, .withOf _ :: r => joinedB pend (d + 1) r
   | pend, d, .ctxOf _ :: r => joinedB pend (d + 1) r
+  | pend, d, .remote _ :: r => joinedB pend (d + 1) r
   | pend, d, .create _ :: r => joinedB pend d r
   | pend, d, .exit :: r => pend.all (fun e => e.2 < d) && joinedB pend (d - 1) r
   | pend, d, .log _ :: r => joinedB pend d r
